@@ -1437,8 +1437,20 @@ func ruleArityCheckedBeforeResolution(c *core.Ctx) {
 		if !ok || (be.Op != token.NEQ && be.Op != token.EQL) {
 			return true
 		}
-		txt := types.ExprString(be)
-		if !(strings.Contains(txt, "TypeParameters)") && strings.Contains(txt, "TypeArguments)") && strings.Count(txt, "len(") == 2) {
+		// each operand, seen through a local it may have been stored in first
+		side := func(e ast.Expr) string {
+			if id, isId := ast.Unparen(e).(*ast.Ident); isId {
+				e = singleDefRHS(info, d.Body, id)
+			}
+			if a, isLen := lenArg(info, e); isLen {
+				if se, isSel := ast.Unparen(a).(*ast.SelectorExpr); isSel {
+					return se.Sel.Name
+				}
+			}
+			return ""
+		}
+		l, r := side(be.X), side(be.Y)
+		if !((l == "TypeParameters" && r == "TypeArguments") || (l == "TypeArguments" && r == "TypeParameters")) {
 			return true
 		}
 		// the mismatch branch leaves with a non-nil error
